@@ -3,7 +3,8 @@
 //! (lists sorted, multiplicities kept).  Graph ids: 0 = Default, g+1 = Named(g).
 //!
 //! Dictionary abstraction: the strings "t0".."t9" are encoded first, in order, so that id i <-> "t<i>"
-//! (asserted).  Histories only use ids below 10.  The string-level entry points
+//! (asserted).  Histories only use ids below 10; the large-graph cases carry `nterms` > 10 (then t0..t<nterms-1>
+//! are encoded and only exact filters are used).  The string-level entry points
 //! (`add_triple_parts`, `delete_triple_parts`, `add_quad_parts`, `QueryBuilder` filters,
 //! `get_decoded_triples`) are driven with these strings; the dictionary itself is property C15's.
 //! `via` selects how Insert/Delete are performed: "index" (DatasetIndex), "db" (SparqlDatabase
@@ -48,7 +49,6 @@ fn graphs_out(gs: Vec<GraphId>) -> Value {
     json!({"graphs": v})
 }
 
-const NTERMS: u32 = 10;
 fn term(i: u64) -> String {
     format!("t{}", i)
 }
@@ -101,11 +101,12 @@ fn main() {
             None => if case["via_db"].as_bool().unwrap_or(false) { "db".to_string() } else { "index".to_string() },
         };
         let battery: Vec<Value> = case["battery"].as_array().cloned().unwrap_or_default();
+        let nterms: u32 = case["nterms"].as_u64().unwrap_or(10) as u32;
         let r = vharness::catch(move || {
             let mut db = SparqlDatabase::new();
             {
                 let mut dict = db.dictionary.write().unwrap();
-                for i in 0..NTERMS {
+                for i in 0..nterms {
                     let id = dict.encode(&term(i as u64));
                     assert_eq!(id, i, "dictionary abstraction: t{} must get id {}", i, i);
                 }
